@@ -487,9 +487,10 @@ pub fn exec_pb(run: u64, prog: &Value, out: &mut Out) {
                 let r = guarded(|| pb.add_element(&Node(tree.clone())));
                 let b = ser(&pb);
                 let panicked = r.is_err() || b.is_err();
-                out.emit(json!({"ev":"pb_add","run":run,"tree":tree,"elem":jbytes(&elem),"bytes":jbytes(&b.unwrap_or_default()),"panic":panicked}));
-                if panicked {
-                    return;
+                out.emit(json!({"ev":"pb_add","run":run,"tree":tree,"elem":jbytes(&elem),"bytes":jbytes(&b.clone().unwrap_or_default()),
+                    "panic":panicked,"add_panic":r.is_err(),"ser_panic":b.is_err()}));
+                if b.is_err() {
+                    return; // the builder itself can no longer be serialised (e.g. 256 elements): end of this program
                 }
             }
             "push" => {
